@@ -127,7 +127,9 @@ def run(ctx, rep):
         rep.sample({"rule": "R07.1", "type": name, "translate": named(ep), "translate_mut": named(em)})
         # translate_mut returns self
         rm = strip_refs(Origins(tm).return_origin())
-        rep.check(rm == SELF or (rm[0] == "mut" and rm[1] == SELF), "R07.1", name + ":returns-self", "translate_mut must return self; returns %s" % show(rm, maxd=4), at=tm.span, fn=tm.path)
+        while rm[0] in ("mut", "update"):   # the same object after its fields were changed
+            rm = rm[1]
+        rep.check(rm == SELF, "R07.1", name + ":returns-self", "translate_mut must return self; returns %s" % show(rm, maxd=4), at=tm.span, fn=tm.path)
     missing = set(ANCHORS) - seen
     rep.check(not missing, "R07.1", "coverage", "Transform impls missing for %s" % sorted(missing), status="undecided")
     polyline_translate_use(prog, rep)
